@@ -49,7 +49,11 @@ def ffi_stubs():
         rt = '' if ret.startswith('*') or not ret else ' -> (r: %s)' % ret
         ens = FFI.get(name)
         if ens is None:
-            raise VB.ExtractError('C entry point %s has no assumed contract (needs contract)' % name)
+            # an entry point of the C library without an assumed contract: the generated file does not compile (front-end error ->
+            # UNDECIDED: needs contract), while the bounded stand-ins of this unit still run
+            out.append('compile_error!("C entry point %s has no assumed contract (needs contract)");' % name)
+            seen.add(name)
+            continue
         out.append('#[verifier::external_body] pub fn %s(%s)%s\n  ensures %s\n{ unimplemented!() }' % (name, ', '.join(ps), rt, ens))
         seen.add(name)
     return '\n'.join(out)
